@@ -44,6 +44,33 @@ CHECKS.update({
                 text='Proved over any sequence of fits: every metric series has one entry per epoch of its phase (LenInv), global epoch = train-loss length grows by one per epoch, validation series by one iff validation is on, local epoch = index of the epoch within the call and <= max_epochs, the loop ends right after the first epoch that requested a stop and the flag is cleared by the next fit, metric entries are batch means (last closure evaluation per batch for closure optimisers). Correspondence as C04/C05.',
                 note='The metric-accumulation defect under closure optimisers was repaired in /repo (fix: 72f0a67); the model mirrors the repaired code.'),
 })
+TAB = 'Lean 4 theorems: verified symbolic derivative (D_sound, iterD_sound) + hand-written executable model of the diff loop and shape guards; autograd model tied to real torch.autograd by a random-program correspondence'
+CHECKS.update({
+    'C03': dict(engine='calc+state', technique=TAB, design='§7 C03',
+                text='diffLoop (model of unsafe_diff incl. both None->zeros exits) = iterD for every expression and order >= 1; with D_sound/iterD_sound: diff is the k-th partial derivative for every total expression and smooth interpretation; zero when independent of t; zero above the polynomial degree (full polynomial fragment via Mathlib Polynomial); mixed/nested partials; shape guards accept iff both operands are (n,1) and equal. Correspondence: random typed programs (polynomials, sin/cos/exp/tanh, explicit FCNN) in 1..4 columns, orders 1..4, nestings, real neurodiffeq.diff vs Lean Float evaluation of the model; symbolic traces of the real loop; all 7225 shape pairs x 4 entry points.',
+                note='Partial: the "differentiably" clause (requires_grad / backward succeeds / gradients of the result) is observed at run time, not proved.'),
+    'C06': dict(engine='state', technique=TB, design='§7 C06',
+                text='Model of get_solution(copy,best) aliasing (live vs frozen handles) and of BaseSolution.__call__ shapes: copy=True solutions are unaffected by any later sequence of fits; copy=False,best=False tracks the live parameters; best=True before any recorded loss is rejected; output shape = first coordinate (or (N,1) with no_reshape), list iff several unknowns. Correspondence: get_solution interleaved with fit() in the scripted world; 720 shape cases over 5 solution classes; bit-exact comparison of solution values and get_residuals with condition.enforce / the equations on real conditions and FCNNs (incl. SolutionSphericalHarmonics).',
+                note='Partial: networks are values in the model; deepcopy fidelity, numpy conversion and dtype/device handling are runtime (observed).'),
+    'C07': dict(engine='state', technique='Lean 4 theorems over the reals about a model generic in the scalar type (instantiated at Float for the driver and at ℝ for the proofs); correspondence on recorded RNG draws', design='§7 C07',
+                text='Every (class, method) pair as a function of the recorded RNG draws: lengths/dimensions, in-domain for all non-noisy node families (linspace, Chebyshev 1st/2nd kind, log, exp, LHS), grid = tensor product in ij order (N-D by induction), determinism of fixed methods, injectivity in the draws for noisy methods and 1-D uniform, LHS one point per stratum for every permutation, spherical ranges and operand domains. Correspondence: real generators with wrapped RNG primitives vs the Float model (1e-9), RNG consumption per call, method tables of all constructors.',
+                note='Known findings: spherical a=b=c=0 zero denominator; exp-spaced zero node never moves. RNG distributions are not modelled (supports only).'),
+    'C13': dict(engine='state', technique=TB, design='§7 C13',
+                text='Object-tree model of all combinators (constructor-time .size bookkeeping, child draw order, Static capture, Filter size updates, Mesh flattening, operator forms). Theorems: concat appends / size = sum; ensemble juxtaposes; mesh = all combinations exactly once in row-major order, size = product, nested meshes flattened; transform maps rows; filter keeps exactly passing rows and updates its size; resample rows come from one draw (distinct without replacement); static/predefined constant; sampler shape; rows stay paired for every tree; size = rows under SizeStable, with decide-witnesses of the stale-size finding. Correspondence: random trees to depth 4 (+ exhaustive depth <= 2 thorough) over spy leaves, values, shapes and every node size compared exactly.',
+                note='Known finding: composite .size stale over a size-changing FilterGenerator.'),
+    'C16': dict(engine='state', technique=TB, design='§7 C16',
+                text='Model of condition callbacks (epoch predicates, repeated-metric family with so_far state, and/or/not/xor with short-circuiting), actions (stop, set-once loss/optimiser, Eve) and the fit loop. Theorems: evaluation of any pure tree = Boolean semantics; period/interval/first/last iff-characterisations (Python % = Int.emod); repeated-metric fires iff the last n steps satisfy the step predicate; action runs iff condition; stop ends the call after the current epoch; set-once/reset counts; SetOptimizer registers each distinct parameter once; Eve formula over ℝ (Mathlib logb/floor) under the stated boundary hypothesis. Correspondence inside real fit(): exhaustive truth tables (depth 2 quick / 3 thorough), fit sequences, scripted metric histories.',
+                note='Boolean composition with stateful repeated-metric predicates is outside the property\'s quantifier and not checked.'),
+    'C18': dict(engine='state', technique=TB, design='§7 C18',
+                text='Model of save/load on the solver observables. Theorems: save changes nothing but the training generator position; load restores networks, best networks, lowest loss (given the C05 invariant), histories, global epoch, optimiser kind, loss function; the C05 invariant survives load and any further fits, for any number of save/load/fit cycles; decide-witness that the pre-repair load (lowest_loss not restored) breaks tracking. Correspondence: scripted save/load/fit cycles vs the model (exact), plus real networks/conditions/optimisers with dill as installed (save raises: solver must be untouched) and with byref=True (round trip).',
+                note="Partial: dill byte fidelity, filesystem, hub upload are runtime. Stream C sets dill.settings['byref']=True (third-party setting) because dill 0.4.1 cannot pickle torch 2.14 optimiser classes by value in this sandbox."),
+    'C19': dict(engine='calc+state', technique=TB + '; activation formulas via the translator (traced forward methods, certificate-checked)', design='§7 C19',
+                text='Model of FCNN/Resnet constructors incl. legacy-argument translation and raising cases; theorems: exact layer list (2|hidden|+1, dimensions compatible, biases, bias-free skip), legacy = replacement, forward is row-wise by construction, monomial column order; Swish/APTx/Sin/Monomial forward traced from source and proved equal to the documented formulas; trainable-parameter table. Correspondence: architectures and forward values of the real modules (own weights) vs the Lean model, row independence bit-exact.',
+                note='Partial: that torch evaluates a batch row by row is observed (net(x)[i] vs net(x[i:i+1]), perturbation of other rows), not proved.'),
+    'C20': dict(engine='calc+state', technique=TB + '; approximator initial conditions via the translator', design='§7 C20',
+                text='Approximators traced from source: u(x,0)=u0, second order also HasDerivAt in t = u0dot for every smooth network. Samplers as state machines over recorded torch.rand draws: every draw, however late, has point i in stratum i (1-D, temporal, segment, rectangle product), both bound orientations. Mini-batch loops: batches flatten to the permutation for all n, bs >= 1 (each point exactly once); one history entry per epoch per series. Correspondence: draws 1..5000 with generator frames compared, real _train_* with spy losses, real _solve_*.',
+                note='Known finding: 1-point training sets (torch.squeeze to 0-d) raise in the legacy API.'),
+})
 NOT_YET = {}
 
 def main():
